@@ -102,6 +102,15 @@ CHECKS.update({
             PROVED, "§3 C13"),
 })
 
+CHECKS.update({
+    "C12": ("proof", "unbounded theorems over every well-formed Decimal (|c| <= 2^127-1, 0..18 digits, any representation), both formats, every "
+            "profile: f64::from / f32::from return without panic the bit pattern of the float nearest to the exact value, ties to even, sign of d, "
+            "+0.0 for zero (leading-zero scaling, one-bit-shorter quotient, 3/2 guard bits and the sticky bit by an exhaustive case lemma, exponent "
+            "patch, carry into the exponent); the specification's exponent search and nearest/even meaning are theorems; the primitive `as f64` "
+            "cast used for integral Decimals is modelled (rne_bits, proved equal to the same specification) and tied by the correspondence run",
+            PROVED, "§3 C12"),
+})
+
 NOT_YET = {}
 
 def main():
